@@ -27,6 +27,8 @@ TEXT = {   # line kind -> text after the margin ({i} = statement number); string
     "xd": "   mid", "xod": "  a'''b", "xhd": "  # not a comment", "xbd": "", "xbsd": "  tail \\",
     "zd": "      u2\"\"\"", "zcd": "  u2\"\"\" + 'x#y'", "zmd": "  u2\"\"\"  # c '''", "zod": "  u2\"\"\" + '''r1",
     "q2": "   q'",
+    "k3d": "      \"\"\"y1", "kbs": "   'q' + " + BS, "kc3": "   'q'  # c '''", "o3sb": "v{i} = '''t1 " + BS,
+    "zbss": "  t2''' + " + BS, "zbsd": "  u2\"\"\" + " + BS,
     # runs of backslashes at the end of a physical line (BS = one backslash character)
     "osq3": "v{i} = 'C:" + BS * 2 + "d" + BS * 3, "odq": "v{i} = \"p" + BS, "odq3": "v{i} = \"C:" + BS * 2 + "d" + BS * 3,
     "sb2": "v{i} = 'p" + BS * 2 + "'", "cb1": "# path C:" + BS, "cb2": "# path C:" + BS * 2, "cb3": "# path C:" + BS * 3,
@@ -42,7 +44,7 @@ FEATURE = {}
 for _f, _ks in {
     "hash-in-string": "sh esc ohs zcs zcd kf",
     "triple-quote-in-ordinary-string": "s3s s3d oqd",
-    "triple-quote-in-comment": "c3 tc3 zms zmd",
+    "triple-quote-in-comment": "c3 tc3 zms zmd kc3",
     "two-triple-quote-kinds-on-a-line": "f3x ocd zos zod",
     "other-triple-quote-inside-triple-string": "xos xod",
     "hash-inside-triple-string": "xhs xhd",
@@ -115,14 +117,19 @@ def via_adjust(text):
         return "exc:" + type(e).__name__
 
 
-def via_render(text, names, module_block):
+def via_render(text, names, where):
+    """the block in the page body (<% %>), at module level (<%! %>) or inside a <%def>"""
     from mako.template import Template
     got = {}
 
     def grab(**kw):
         got.update(kw)
         return ""
-    t = ("<%!\n" if module_block else "<%\n") + text + "\n%>\n${grab(" + ", ".join("%s=%s" % (n, n) for n in names) + ")}"
+    show = "${grab(" + ", ".join("%s=%s" % (n, n) for n in names) + ")}"
+    if where == "render-def":
+        t = "<%def name=\"d()\"><%\n" + text + "\n%>\n" + show + "</%def>${d()}"
+    else:
+        t = ("<%!\n" if where == "render-module" else "<%\n") + text + "\n%>\n" + show
     try:
         Template(t).render_unicode(grab=grab)
     except Exception as e:  # noqa
@@ -164,7 +171,7 @@ def part_remargin(run):
         if path == "adjust":
             got = via_adjust(text)
         else:
-            got = via_render(text, sorted(ref), path == "render-module")
+            got = via_render(text, sorted(ref), path)
         r = "ok" if got == ref else (got if isinstance(got, str) else "value-differs")
         memo[mk] = r
         return r
@@ -207,12 +214,14 @@ def part_remargin(run):
     # every short block with a backslash run at an end of line goes through full renders at every margin
     BSKINDS = {k for k, t in TEXT.items() if t.endswith(BS)}
     bs_blocks = {k for k in keys if len(k) <= 2 and BSKINDS & set(k)}
+    # ... and every block with an explicitly joined line at four margins, in the body, a def and a <%! %> block
+    joined = {k for k in keys if BSKINDS & set(k)} - bs_blocks
     for key in keys:
         for margin in MARGINS:
             ind = (len(margin) + len(key)) % 2 == 1
             paths = ["adjust"]
-            if (key in sample_render and margin in ("", "    ", TAB, " " * 7)) or key in bs_blocks:
-                paths += ["render", "render-module"]
+            if (margin in ("", "    ", TAB, " " * 7) and (key in sample_render or key in joined)) or key in bs_blocks:
+                paths += ["render", "render-module", "render-def"]
             for path in paths:
                 r = outcome(key, margin, ind, path)
                 nexec += 1
@@ -222,6 +231,9 @@ def part_remargin(run):
                 r2 = outcome(sub, margin, ind, path)
                 # the lexer-side re-indenter is part of a render: report render paths only for what adjust_whitespace gets right
                 if path != "adjust" and outcome(sub, margin, ind, "adjust") != "ok":
+                    continue
+                # ... and the def placement only for what the body placement gets right
+                if path == "render-def" and outcome(sub, margin, ind, "render") != "ok":
                     continue
                 sig = "remargin:%s:%s:%s:%s" % ("adjust_whitespace" if path == "adjust" else path, feature_sig(sub), margin_class(margin),
                                                "error" if r2.startswith("exc:") else "string-altered")
